@@ -140,6 +140,13 @@ anchor("flt_bs_wn2", "dt flow fupp", SG, "bandblock", ("callarg_elt", r"(?:\w+\.
 anchor("psd_fs", "dt", SG, "psd", ("callkw", r"(?:\w+\.)*welch", 0, "fs"))
 anchor("psd_nperseg_frac", "n", "qats/ts.py", "TimeSeries.psd", [("callarg", r"int", 0, 0), ("assign", "nperseg", 0)], inline=[],
        rename={"x.size": "n", "np.size(x)": "n", "len(x)": "n"})
+# the ratio that `TimeSeries.get` rounds to obtain the number of steps of the resampling grid (argument of `round` in the nested
+# helper `new_timearray`), and the ratio that `TimeSeries.stats` rounds to obtain the number of peaks in the statistics duration
+TSPY = "qats/ts.py"
+anchor("grid_ratio", "d t0 t1", TSPY, ["TimeSeries.get.new_timearray", "new_timearray", "TimeSeries.new_timearray"],
+       ("callarg", r"round", 0, 0), inline=[])
+anchor("stats_n_ratio", "duration nmax statsdur", TSPY, "TimeSeries.stats", ("callarg", r"round", 0, 0), inline=[],
+       rename={"t[-1] - t[0]": "duration", "(t[-1] - t[0])": "duration", "np.size(mx)": "nmax", "mx.size": "nmax", "len(mx)": "nmax"})
 MO = "qats/motions.py"
 for _i in range(3):
     for _j in range(3):
